@@ -88,7 +88,7 @@ def directed_ops(name):
   if hasattr(gen.CLS[name], 'fit_transform'):
     h += [['FitTransform', 5, 2], ['Query', 5, 1], ['FitTransform', 1, 1]]
   if gen.KIND[name] in ('pairs', 'sup'):
-    h += [['CrossValidate', 1, 1], ['CrossValidate', 4, 2], ['Query', 1, 1]]
+    h += [['CrossValidate', 1, 1], ['CrossValidate', 4, 2], ['Query', 1, 1], ['GridSearch', 1, 2], ['GridSearch', 4, 1], ['Query', 1, 2]]
   if name in lifecycle.PAIR_CLASSIFIERS:
     h += [['SetThreshold', 1, 2], ['Query', 1, 6], ['Calibrate', 1, 1, 2], ['Query', 1, 8], ['Fit', 1, 2],
           ['Query', 1, 6], ['SetThreshold', 4, 1], ['Calibrate', 4, 1, 1]]
